@@ -126,16 +126,8 @@ example : (headKeyed 1 [str "a"]).run [[(str "a", str "x")], [(str "b", str "y")
 comma-join, `GetSelectedValuesJoined`) of two value lists of the same length is the same only if
 the lists are equal — whatever bytes, commas and backslashes included, the values contain.
 (Before the fix 94fce798a the plain comma-join mapped ["x,y","z"] and ["x","y,z"] to one key.) -/
-theorem joinKey_injective (a b : List Bytes) (hl : a.length = b.length) (h : joinKey a = joinKey b) : a = b := by
-  cases a with
-  | nil => cases b with
-    | nil => rfl
-    | cons _ _ => simp at hl
-  | cons x xs => cases b with
-    | nil => simp at hl
-    | cons y ys =>
-      have := congrArg (fun s => decKey s []) h
-      simpa [dec_joinKey] using this
+theorem grouping_key_injective (a b : List Bytes) (hl : a.length = b.length) (h : joinKey a = joinKey b) : a = b :=
+  joinKey_injective a b hl h
 
 /-- Hence two records fall in the same group exactly when they agree on every group-by field. -/
 theorem same_group_iff_same_values (fields : List Bytes) (r s : Rec) (k : Bytes)
